@@ -116,7 +116,7 @@ def collect_atoms(conds):
         if t == "matches":
             # (x matches Some(..)) of a checked op: interpreted when x is a checked_* call
             x = s[2]
-            if x[0] in ("andthen", "optmap", "ite", "match", "Some") or (x[0] == "call" and x[1] == "ok") or (x[0] == "fn" and x[1] in TRY_FROM) or x == ("lit", "None"):
+            if x[0] in ("andthen", "optmap", "ite", "match", "Some") or (x[0] == "call" and x[1] in ("ok", "cmp", "total_cmp")) or (x[0] == "fn" and x[1] in TRY_FROM) or x == ("lit", "None"):
                 go(x)
                 return
             if x[0] == "call" and x[1].startswith("checked_"):
@@ -328,6 +328,14 @@ def evaluate(s, env):
     if t == "matches":
         x = s[2]
         pat = s[1]
+        if x[0] == "call" and x[1] in ("cmp", "total_cmp"):
+            o = evaluate(x, env)
+            names = [p_.strip().split("::")[-1] for p_ in pat.split("|")]
+            if all(nm in ("Less", "Equal", "Greater") for nm in names):
+                return {-1: "Less", 0: "Equal", 1: "Greater"}[o] in names
+            if pat.strip() == "_" or pat.strip().isidentifier():
+                return True
+            raise Unknown("ordering pattern " + pat)
         if x[0] in ("andthen", "optmap", "fn", "Some", "ite", "match") or x == ("lit", "None") or (x[0] == "call" and (x[1].startswith("checked_") or x[1] == "ok")):
             try:
                 ok, _ = opt_value(x, env)
@@ -353,6 +361,10 @@ def evaluate(s, env):
             b = evaluate(s[3][0], env)
             ka, kb = total_key(a), total_key(b)
             return (ka > kb) - (ka < kb)
+        if m == "cmp" and len(s[3]) == 1:
+            a = evaluate(s[2], env)
+            b = evaluate(s[3][0], env)
+            return (a > b) - (a < b)
         if m in ("is_some", "is_ok"):
             return opt_value(s[2], env)[0]
         if m in ("is_none", "is_err"):
